@@ -627,8 +627,9 @@ impl IoReader {
 //@@ nowhere
 //@@ param visitor : VisS
 //@@ ret Result<VisValue, Error>
-//@@ subst `visitor.visit_bytes(&self.buf[..len])` => `visitor.visit_bytes_of(vstd::slice::slice_subrange(self.buf.as_slice(), 0, len))` rule=R9
+//@@ subst `visitor.visit_bytes(&__E1[..len])` => `visitor.visit_bytes_of(vstd::slice::slice_subrange(__E1.as_slice(), 0, len))` rule=R9
 //@@ subst `self.buf.drain(..len)` => `vec_drain_front(&mut self.buf, len)` rule=optional-R9
+//@@ subst `std::mem::take(&mut self.buf)` => `vec_take(&mut self.buf)` rule=optional-R9
 //@@ spec
     requires bounded(*old(self)),
     ensures bytes_forwarded(*old(self), *final(self), len, visitor, r), final(self).wf(),     // [C20.reader.forward-exact] (spelled out in bytes_forwarded above)
@@ -637,6 +638,11 @@ impl IoReader {
 
 /// `io::Read::take(&mut reader, limit)` is reduced to its limit: the adaptor is consumed by the read_to_end that follows (R9)
 pub fn take_limit(limit: u64) -> (r: u64) ensures r == limit { limit }
+/// std::mem::take on a Vec: the vector is handed out, an empty one is left behind
+#[verifier::external_body]
+pub fn vec_take(a: &mut Vec<u8>) -> (r: Vec<u8>)
+    ensures r@ == old(a)@, final(a)@.len() == 0,
+{ unimplemented!() }
 /// Vec::append
 #[verifier::external_body]
 pub fn vec_append(a: &mut Vec<u8>, b: &mut Vec<u8>)
